@@ -209,7 +209,23 @@ func (c *Ctx) enterLoopHead(st *State, fr *Frame, li *loopInfo, pred *ssa.BasicB
 			break
 		}
 	}
+	// built-in invariant of every range-over-slice loop: the hidden index never drops below -1
+	rangeIdx := func(st *State) []Term {
+		var out []Term
+		cs, _, _, _ := c.loopWrites(fr, li)
+		for _, key := range sortedCellKeys(cs) {
+			if a, ok := key.(*ssa.Alloc); ok && a.Comment == "rangeindex" {
+				if v, ok := st.cells[a]; ok {
+					out = append(out, mk(SBool, "(<= (- 1) %s)", v.(Term).S))
+				}
+			}
+		}
+		return out
+	}
 	if st.inLoop[li.head] {
+		for _, g := range rangeIdx(st) {
+			c.oblige(st, fr, "inv-keep", fmt.Sprintf("loop%d", li.ord), "rangeindex-lower-bound", pos, g, nil, "-1 <= rangeindex (built in)")
+		}
 		for _, cl := range invs {
 			env := c.envFor(st, fr, fr.entry)
 			env.goal = true
@@ -226,6 +242,9 @@ func (c *Ctx) enterLoopHead(st *State, fr *Frame, li *loopInfo, pred *ssa.BasicB
 		return false
 	}
 	// establishment
+	for _, g := range rangeIdx(st) {
+		c.oblige(st, fr, "inv-init", fmt.Sprintf("loop%d", li.ord), "rangeindex-lower-bound", pos, g, nil, "-1 <= rangeindex (built in)")
+	}
 	for _, cl := range invs {
 		env := c.envFor(st, fr, fr.entry)
 		env.goal = true
@@ -335,6 +354,9 @@ func (c *Ctx) enterLoopHead(st *State, fr *Frame, li *loopInfo, pred *ssa.BasicB
 		}
 	}
 	// assume invariants
+	for _, g := range rangeIdx(st) {
+		st.assume(g)
+	}
 	for _, cl := range invs {
 		env := c.envFor(st, fr, fr.entry)
 		st.assume(env.evalBool(cl.E))
